@@ -453,6 +453,8 @@ impl<'store> Serialize for ResultItem<'store, AnnotationSubStore> {
 
 impl<'store> ResultItem<'store, AnnotationSubStore> {
     pub fn save(&self) -> Result<(), StamError> {
+        #[cfg(stam_verif)]
+        crate::verif::yield_point(crate::verif::SITE_SAVE_SUBSTORE);
         let new_config = self.store().new_config();
 
         debug(self.store().config(), || {
